@@ -201,6 +201,8 @@ def _shard(sh: Dict[str, Any]) -> Dict[str, Any]:
             tot["paths"] += eng.paths
             tot["queries"] += eng.queries
             tot["solver_time"] += eng.solver_time
+            tot["path_exceptions"] = tot.get("path_exceptions", 0) + eng.n_exceptions
+            tot.setdefault("path_exception_samples", []).extend(eng.exceptions[:2])
             exhausted = exhausted and eng.exhausted
             extra["observation_points"] += len(results)
             if len(samples) < 1 and results:
@@ -221,6 +223,7 @@ def _shard(sh: Dict[str, Any]) -> Dict[str, Any]:
         if not v <= set(rest.get(k, [])):
             return {"shard": sh["name"], "crash": f"calibration incomplete: {k} rests at {sorted(v)} but table has {rest.get(k)}"}
     return {"paths": tot["paths"], "queries": tot["queries"], "solver_time": tot["solver_time"], "exhausted": exhausted,
+            "path_exceptions": tot.get("path_exceptions", 0), "path_exception_samples": tot.get("path_exception_samples", [])[:3],
             "inconclusive": [], "shard": sh["name"], "cex": cex, "samples": samples, "extra": extra, "reached": extra["observation_points"]}
 
 
